@@ -281,7 +281,7 @@ class Run:
         return {c: v for c, v in self.callers.items() if not v[0].done()}
 
     # ------------------------------------------------------------------ stimuli: API
-    def call(self, api, ids=()):
+    def call(self, api, ids=(), step=True):
         if not self.free:
             return None
         c = self.free.pop(0)
@@ -290,6 +290,7 @@ class Run:
 
         async def w():
             self.log("call", c=c, api=api, ids=list(ids))
+            msg = ""
             try:
                 if api == "get":
                     await p.get_characteristics([(1, i) for i in ids])
@@ -317,8 +318,12 @@ class Run:
                 elif isinstance(ex, X.HomeKitException):
                     res = "lib:" + type(ex).__name__
                 else:
-                    res = f"error:{type(ex).__name__}:{ex}"[:120]
-            self.log("ret", c=c, res=res)
+                    # class of a non-library exception: type, and for AttributeError the attribute that was missing
+                    res = f"error:{type(ex).__name__}"
+                    if isinstance(ex, AttributeError):
+                        res += ":" + (str(ex).split("'")[-2] if str(ex).count("'") >= 2 else "?")
+                    msg = f"{type(ex).__name__}: {ex}"[:160]
+            self.log("ret", c=c, res=res, msg=msg)
             self.callers.pop(c, None)
             self.free.append(c)
             self.free.sort()
@@ -327,13 +332,14 @@ class Run:
         task = self.loop.create_task(w())
         self.callers[c] = (task, api)
         self.task_caller[task] = c
-        self.step(1)
+        if step:
+            self.step(1)
         return c
 
     def cancellable(self, c):
         """Cancellation is a stimulus only where the specification has an opinion (see CoapConn.tla, Cancellable)."""
         task, api = self.callers[c]
-        if task.done() or api in ("close", "shutdown"):
+        if task.done() or api in ("close", "shutdown") or task.cancelling():
             return False
         mine = [q for q in self.reqs if q.c == c and not q.logged_end and not q.fut.cancelled()]
         inflight = [q for q in mine if not q.fut.done()]
@@ -343,7 +349,8 @@ class Run:
             q = inflight[-1]
             return q.kind in ("m1", "m3") or (q.kind == "enc" and self.phase_of(c) == "op")
         # not in flight: waiting for the primary, or queued on the session lock
-        return self.phase_of(c) in ("wait", "opq")
+        ph = self.phase_of(c)
+        return ph == "wait" or (ph == "opq" and api != "sub")
 
     def phase_of(self, c):
         """Where caller c is, from white-box inspection of the pairing (used only to choose stimuli)."""
@@ -392,8 +399,9 @@ class Run:
         self.step(1)
 
     # ------------------------------------------------------------------ stimuli: accessory / network
-    def rsp(self, r, how, variant=0):
-        """Answer request r.  how: ok | err (pair-verify error TLV) | notfound | garbage | neterr."""
+    def rsp(self, r, how, variant=0, step=True):
+        """Answer request r.  how: ok | err (pair-verify error TLV) | notfound | garbage | neterr.
+        step=False leaves the woken task unrun (the caller of this method runs the loop itself)."""
         from aiocoap.error import NetworkError
         from aiocoap.numbers.codes import Code
         self.settle()                      # I/O is polled when no task is runnable
@@ -457,7 +465,8 @@ class Run:
             q.fut.set_exception(exc)
         else:
             q.fut.set_result(resp)
-        self.step(1)                       # the waiting task consumes the response
+        if step:
+            self.step(1)                   # the waiting task consumes the response
         return True
 
     def tmo(self, r):
@@ -578,9 +587,9 @@ def random_stimulus(r: Run, rng):
         sub = rng.sample(CHARS, rng.randrange(1, 3))
         opts += [("call", "get", [rng.choice(CHARS)])] * 3 + [("call", "put", [rng.choice(CHARS)])] * 2
         opts += [("call", "sub", sub)] * 3 + [("call", "unsub", sub)]
-        if rng.random() < 0.35:
+        if rng.random() < 0.6:
             opts += [("call", "close", [])]
-        if rng.random() < 0.1:
+        if rng.random() < 0.15:
             opts += [("call", "shutdown", [])]
     for c in list(r.active()):
         if r.cancellable(c):
